@@ -60,6 +60,10 @@ pub open spec fn be32_val(s: Seq<u8>) -> int
 // ---------------------------------------------------------------------------------------------
 // core::task / core::mem
 pub enum Poll<T> { Ready(T), Pending }
+impl<T> Poll<T> {
+    pub fn is_ready(&self) -> (r: bool) ensures r == (*self is Ready) { match self { Poll::Ready(_) => true, Poll::Pending => false } }
+    pub fn is_pending(&self) -> (r: bool) ensures r == (*self is Pending) { match self { Poll::Ready(_) => false, Poll::Pending => true } }
+}
 pub struct Context { pub x: u8 }
 // A-core-05: `impl<T> From<T> for Option<T>` is Some
 // A-core-25: Option<&T>::copied / cloned of a Copy value
